@@ -220,6 +220,15 @@ def gen_alias_program(r):
 
     def new_container(kind=None):
         kind = kind or r.choice(["list", "list", "map", "object", "set"])
+        if r.random() < 0.35:
+            # made by a function whose body is a literal: every call makes a new container
+            if kind == "list":
+                return RefObj("list", [7, 8]), "mk_list()"
+            if kind == "set":
+                return RefObj("set", [7, 8]), "mk_set()"
+            if kind == "map":
+                return RefObj("map", {1: 70, 2: 80}), "mk_map()"
+            return RefObj("object", {"p": 7}), "mk_obj()"
         if kind == "list":
             items = [fresh_atom() for _ in range(r.randint(0, 2))]
             return RefObj("list", items), "[" + ", ".join(map(str, items)) + "]"
@@ -230,6 +239,7 @@ def gen_alias_program(r):
             return RefObj("map", {}), "<<<>>>"
         return RefObj("object", {}), "<**>"
 
+    lines += ["def mk_list() [7, 8]", "def mk_set() <<7, 8>>", "def mk_map() <<<1 => 70, 2 => 80>>>", "def mk_obj() <*p = 7*>"]
     for n in names:
         if heap and r.random() < 0.35:
             m = r.choice(list(heap))
